@@ -28,3 +28,18 @@ check("C07", "fault_enumeration",
       "Assumes the full encoding decodes with exact consumption (verified per case first).",
       "runtime monitoring: exhaustive truncation-point enumeration over generated encodings",
       "DESIGN.md 3/C07")
+check("C15", "exploration",
+      "Compiles the same driver with and without -tags purego, runs every two-variant codec over generated raw inputs (exhaustive for 8/16-bit element types and for Bool input bytes), fresh and reset targets, empty and junk-prefixed buffers, EncodeColumn/WriteColumn/DecodeColumn, and aligns the two transcripts (hashes of bytes, values, error classes) by case id in the parent. Held = identical transcripts on all aligned case ids.",
+      "Both binaries are built from the same /repo tree; error texts are reduced to classes {nil, short read, bad value}.",
+      "runtime monitoring: differential execution of two builds with offline transcript comparison",
+      "DESIGN.md 3/C15")
+check("C16", "exploration",
+      "Drives single column objects through random and exhaustive-short histories of Append/Reset/Prepare/Infer/Encode*/Decode (valid, truncated) and compares, after every step, Rows()/Row(i) and the reference decode of every encoding with a plain list-of-values model; both builds. Held = model and column agree after every step of every history run.",
+      "Contract assumptions: Reset precedes every decode; Preparable columns are prepared before encoding; after a failed decode the next operation is Reset.",
+      "runtime monitoring: lock-step model-based execution over operation histories",
+      "DESIGN.md 3/C16")
+check("C19", "exploration",
+      "Feeds grammar-generated malformed and well-formed type strings to ColAuto.Infer, every Inferable column's Infer, and ColumnType.Conflicts/Base/Elem: no panic on anything; for well-formed types an inferred column must report a non-conflicting type and decode a reference-encoded block of that type to the reference values; Conflicts is checked for reflexivity, symmetry and agreement with a reference relation over all ordered pairs of a pool (incl. spacing variants). Held = no counterexample among the generated strings and pairs.",
+      "Reference relation written from the property statement and proto/column_test.go's table; same-base parameter differences it does not rule on are counted as unspecified and only checked for symmetry/no panic.",
+      "runtime monitoring: generated-input execution with a reference relation oracle and reference-encoded decode check",
+      "DESIGN.md 3/C19")
